@@ -178,6 +178,18 @@ Section FloatModel.
   Definition fspec := @viewshed_spec float float float fnode float ltb ltb fgt fcontrib.
   Definition fspec_full := @viewshed_spec_full float float float fnode float ltb ltb fgt fmin3 fcontrib.
 
+  (* the decidable premises of C05_sweep_eq_spec / C05_float_instance, evaluated on the
+     generated cells (reported by the driver for every case):
+     NaN-free bearings, wf_span, own_span, phase1_sound *)
+  Definition premises_ok (cells : list fcell) : bool :=
+    forallb (fun c => negb (fisnan (c_ea c)) && negb (fisnan (c_ca c)) && negb (fisnan (c_xa c))) cells &&
+    forallb (fun c => Bool.eqb (c_ea c <? c_xa c) (negb (cinit c))) cells &&
+    forallb (fun c => spans ltb c (c_ca c)) cells &&
+    forallb (fun c => forallb (fun c' =>
+        implb (spans ltb c' (c_ca c) && (ckey c' <? ckey c) &&
+               fgt (fmin3 (act_node ltb c' (c_ca c))) (cgrad c))
+              (hit fgt fcontrib (cgrad c) (c_ca c) (act_node ltb c' (c_ca c)))) cells) cells.
+
   (* visibility grid: 180 at the observer, the vertical angle where visible, -1 elsewhere *)
   Definition to_grid (nr nc vr vc : Z) (vis : list (Z * float)) : list (list float) :=
     map (fun r => map (fun c =>
@@ -203,7 +215,8 @@ Section FloatModel.
   Inductive vs_result :=
   | VsRange                                    (* ValueError: x / y outside the raster *)
   | VsErr (e : sweep_err)                      (* outside the modelled domain *)
-  | VsOk (grid : list (list float)) (spec_grid : list (list float)) (spec_full_grid : list (list float)).
+  | VsOk (grid : list (list float)) (spec_grid : list (list float)) (spec_full_grid : list (list float))
+         (premises : bool).
 
   Definition viewshed_model (g : list (list float)) (xs ys : list float)
              (x y obs_elev target_elev : float) : vs_result :=
@@ -223,5 +236,6 @@ Section FloatModel.
       | inr vis => VsOk (to_grid nr nc vr vc vis)
                         (to_grid nr nc vr vc (fspec cells))
                         (to_grid nr nc vr vc (fspec_full cells))
+                        (premises_ok cells)
       end.
 End FloatModel.
